@@ -4,6 +4,6 @@ CONSTANTS
   CaseKinds <- OnlyRt
   Depth = 1
   RandDepth = 1
-  TyNames <- C14Names
+  TyNames <- C14AllNames
 INVARIANT Dump
 CHECK_DEADLOCK FALSE
